@@ -173,11 +173,13 @@ def _rulefn_body(value, lineno, offset):
         if TWIN:
             return False
         return True  # error rules end the lex; location checked by C06/C10
-    if TWIN or ERROR_RULE:
+    if TWIN:
         return False
-    if r is None:
-        # only preprocessor directives may vanish (#line / #warning): checked by C10, here: line counter untouched
-        return RULE == "t_PP_DIRECTIVE" and fake.lineno == lineno
+    if r is None and RULE == "t_PP_DIRECTIVE":
+        # preprocessor directives may vanish (#line / #warning) instead of raising: checked by C10, here: line counter untouched
+        return fake.lineno == lineno
+    if ERROR_RULE or r is None:
+        return False
     if r is not t or r.value != value:
         return False
     return fake.lineno == lineno + value.count("\n")
